@@ -102,6 +102,10 @@ func init() {
 	def("C12", &propCfg{Dir: "c11", Pkgs: udpPkgs,
 		Components: []string{"real: udp listener/Conn/BatchConn, packetio.Buffer, deadline.Deadline", "stub: simnet UDP kernel; it records every Close of the shared socket"},
 		Assumptions: stdAssume, Rule: udpRule})
+	def("C13", &propCfg{Pkgs: []string{"vnet", "deadline"},
+		Components: []string{"real: vnet.Router address assignment (AddNet/AddRouter), vnet.Net bind paths (ListenUDP/ListenPacket/Dial/DialUDP/Close), conn map, datagram demultiplexing through a started router", "adaptor: reads a child router's WAN addresses", "oracle: reference model (set of held addresses; set of open sockets with wildcard rules); porcupine for concurrent bind histories"},
+		Assumptions: append([]string{"duplicate static addresses supplied by the user are not generated (left unconstrained by the property)"}, stdAssume...),
+		Rule: "(a) assignment histories: 1-14 (occasionally >250) NICs/child routers with distinct static addresses inside/outside the automatic range and outside the subnet, automatic assignment, subnets /16 /24 /28; (b) bind histories by 1-3 concurrent workers with specific, wildcard, loopback and foreign addresses, explicit and zero ports, closes and probe datagrams; occasionally a 1000-port sweep of the ephemeral range. Non-trivial: >=2 NICs / >=3 operations / >=1 context switch; distinct = hash of the history or schedule hash"})
 	def("C09", &propCfg{
 		Components:  []string{"real: deadline.Deadline over simrt.Timer (AfterFunc callbacks are workers parked at their entry, so a dispatched-but-unrun callback can be overtaken by further Set calls)", "stub: none"},
 		Assumptions: stdAssume,
